@@ -40,6 +40,16 @@ def make_complex(cfg):
     if name.startswith("grid"):
         shape = tuple(int(c) for c in name[4:].split("x"))
         patches = R.grid_complex(shape, nsp, p)
+        if cfg.get("nsp_axes"):
+            # spans per box column/row: nsp_axes[c][i] = spans along physical direction c of the boxes with index i in
+            # that direction (conforming by construction, but the patches carry different tensor-product spaces)
+            ax = cfg["nsp_axes"]
+            k = 0
+            for idx in itertools.product(*(range(n) for n in reversed(shape))):
+                cell = tuple(reversed(idx))
+                patches[k] = R.box_patch([float(c) for c in cell], [float(c + 1) for c in cell],
+                                         [ax[c][cell[c]] for c in range(len(shape))], p)
+                k += 1
     elif name.startswith("ring"):
         patches = R.ring_complex(int(name[4:]), nsp[0], p)
     elif name == "lshape":
@@ -79,8 +89,8 @@ def events_for(patches):
 
 def configs(tier):
     cfgs = []
-    def add(complex, p, nsp, reparam=None):
-        cfgs.append({"complex": complex, "p": p, "nsp": list(nsp), "reparam": reparam})
+    def add(complex, p, nsp, reparam=None, nsp_axes=None):
+        cfgs.append({"complex": complex, "p": p, "nsp": list(nsp), "reparam": reparam, "nsp_axes": nsp_axes})
     quick = tier == "quick"
     # 2D grids: all single-patch reparametrisations from D4 for the 2x2 complex
     d4 = ["", "f0", "f1", "f0+f1", "s", "s+f0", "s+f1", "s+f0+f1"]
@@ -88,6 +98,11 @@ def configs(tier):
         add("grid2x1", p, (1, 1))
         add("grid2x2", p, (1, 2))
         add("lshape", p, (2, 1))
+    # patches with different tensor-product spaces (different numbers of spans normal to the interfaces)
+    add("grid2x1", 1, (1, 1), nsp_axes=[[1, 3], [2]])
+    add("grid2x1", 2, (1, 1), nsp_axes=[[2, 1], [1]])
+    add("grid2x2", 1, (1, 1), nsp_axes=[[1, 2], [3, 1]])
+    add("grid2x2", 2, (1, 1), ["", "s", "f0", ""], nsp_axes=[[1, 2], [2, 1]])
     for k in range(4):
         for code in d4[1:]:
             rep = [""] * 4
@@ -152,7 +167,8 @@ def _canon(mp):
     order = sorted(range(len(cls)), key=lambda i: (cls[i] == (), cls[i]))
     ren = {old: new for new, old in enumerate(order)}
     return (tuple(cls[i] for i in order),
-            tuple(tuple(sorted((int(i), ren[sd]) for i, sd in spp.items())) for spp in mp.shared_per_patch))
+            # (a dangling class index -- possible only if the structure is already inconsistent -- is kept as it is)
+            tuple(tuple(sorted((int(i), ren.get(sd, -1 - abs(int(sd)))) for i, sd in spp.items())) for spp in mp.shared_per_patch))
 
 
 def glue_problems(mp, history):
@@ -225,8 +241,8 @@ def _on_state(s, history):
 
 def cfg_name(cfg):
     rep = cfg.get("reparam")
-    return "%s:p%d:n%s:%s" % (cfg["complex"], cfg["p"], "x".join(map(str, cfg["nsp"])),
-                              "id" if not rep or not any(rep) else ",".join(rep))
+    nsp = "x".join(map(str, cfg["nsp"])) if not cfg.get("nsp_axes") else "|".join("".join(map(str, a)) for a in cfg["nsp_axes"])
+    return "%s:p%d:n%s:%s" % (cfg["complex"], cfg["p"], nsp, "id" if not rep or not any(rep) else ",".join(rep))
 
 
 def explore_glue(cfg, out, cap):
